@@ -28,6 +28,9 @@ var extras = map[string]ruleFn{
 	},
 	// "start-up fails with an error instead of succeeding with mixed versions": the creator's error reaches the holder
 	"C03": func(c *core.Ctx, r *core.Report) {
+		// "every lookup by name refers to the one published version": the public lookups hand out what the registry publishes, and a name has one definition
+		lookupRules(c, r, "C03.R9")
+		definitionRegistryTables(c, r, "", "C03.R10")
 		if l := findLifecycle(c, r, "C03.R8"); l != nil {
 			populateRules(c, r, l, func(row string) string {
 				if row == "error" {
@@ -52,6 +55,8 @@ var extras = map[string]ruleFn{
 	},
 	// "leaves the field untouched when it is optional": nothing but Inject / SetValue / the logger processor writes fields
 	"C07": func(c *core.Ctx, r *core.Report) {
+		// the tag value (the requested name) is the text up to the first top-level comma
+		tagRules(c, r, "C07.R11", "value", "arguments")
 		writerRules(c, r, "C07.R7")
 		isSelfTable(c, r, "C07.R8")
 		fieldScanRules(c, r, "C07.R9")
@@ -61,6 +66,14 @@ var extras = map[string]ruleFn{
 	},
 	// "required=false points that cannot be satisfied leave their field at its zero value"
 	"C09": func(c *core.Ctx, r *core.Report) {
+		// "does not panic": building the narrowing error never panics; every eager component is created, so its failures surface
+		narrowRules(c, r, "C09.E6", "no-panic")
+		refreshRules(c, r, func(row string) string {
+			if row == "eager-only" || row == "error" {
+				return "C09.E7"
+			}
+			return ""
+		})
 		tagRules(c, r, "C09.E3", "required")
 		fieldScanRules(c, r, "C09.E4")
 		propsStageRules(c, r, "C09.E4")
@@ -72,6 +85,8 @@ var extras = map[string]ruleFn{
 	// "only components whose declared qualifier is in the requested set": qualifier texts are compared exactly
 	// "a unique component without a custom name wins": which components count as custom-named
 	"C08": func(c *core.Ctx, r *core.Report) {
+		// narrowing runs for every holder on every creation: the property stage calls every processor each time
+		propsStageRules(c, r, "C08.R9")
 		// "a unique Primary always wins": the Primary test answers per type; user post-processors meet the built-in stages at their documented positions
 		typeImplementRules(c, r, "C08.R7")
 		processorOrderRules(c, r, "C08.R8")
@@ -97,6 +112,8 @@ var extras = map[string]ruleFn{
 	},
 	// "every registered runner is invoked": the runner collection is complete
 	"C13": func(c *core.Ctx, r *core.Report) {
+		// "only after every eagerly created component has finished initialization": an initialization that did not complete is an error
+		initErrorRules(c, r, "C13.R9")
 		markerTypeRules(c, r, "C13.R7")
 		runEntryRules(c, r, "C13.R8")
 		globalAppendRules(c, r, "C13.R8")
@@ -139,6 +156,15 @@ var extras = map[string]ruleFn{
 	},
 	// "the field receives the expression's result": binding writes a fresh value
 	"C18": func(c *core.Ctx, r *core.Report) {
+		// "start-up fails exactly when the bound value violates": a failing dependency creation fails its holder (also an optional one), so the verdict is not lost on the way
+		if l := findLifecycle(c, r, "C18.R10"); l != nil {
+			populateRules(c, r, l, func(row string) string {
+				if row == "error" {
+					return "C18.R10"
+				}
+				return ""
+			})
+		}
 		textStageRules(c, r, "C18.R2", "expr")
 		processorOrderRules(c, r, "C18.R1")
 		propsStageRules(c, r, "C18.R7")
@@ -150,6 +176,8 @@ var extras = map[string]ruleFn{
 	},
 	// the scanner hands the tag text to the parser unchanged
 	"C19": func(c *core.Ctx, r *core.Report) {
+		// "values are the space-separated items": what was parsed stays what readers see
+		storedValuesRules(c, r, "C19.R9")
 		// "only an explicit required=false makes a point optional": what the stages do with the answer
 		if run := c.DeclaredMethod(c.Named("app", "App"), "Run"); run != nil {
 			requiredDecisionRules(c, r, "C19.R8", reachableInScope(c, run))
@@ -163,6 +191,8 @@ var extras = map[string]ruleFn{
 		trs.report(c, r, tfn, func(string) string { return "C19.R7" }, "tag-scan-table@"+core.FnName(tfn), tagScanRows)
 	},
 	"C01": func(c *core.Ctx, r *core.Report) {
+		// "no holder ever ends up with a second copy": nothing evicts a published singleton (a re-creation would hand later holders another instance)
+		alphabetRules(c, r, "C01.R11")
 		lookupRules(c, r, "C01.R8")
 		// "every lookup of that component by name": one definition per name, found under that name only
 		definitionRegistryTables(c, r, "", "C01.R10")
@@ -181,6 +211,8 @@ var extras = map[string]ruleFn{
 		narrowRules(c, r, "C12.R6", "slice-exact", "no-panic")
 	},
 	"C17": func(c *core.Ctx, r *core.Report) {
+		// "string values arrive unchanged": the file and raw loaders hand back exactly the bytes they were given
+		loaderIdentityRules(c, r, "C17.R11")
 		// the three binding paths read one configuration and see every tagged field
 		binderRules(c, r, "C17.R8")
 		// a placeholder (and the prop shorthand, which becomes one) resolves nested keys completely; one property per field
@@ -190,7 +222,13 @@ var extras = map[string]ruleFn{
 		chainActiveRules(c, r, "C17.R9")
 		propsStageRules(c, r, "C17.R9")
 	},
+	// "never returns the half-built instance as if it had been created": an initialization that failed is a failed creation, every time
+	"C04": func(c *core.Ctx, r *core.Report) {
+		initErrorRules(c, r, "C04.R4")
+	},
 	"C20": func(c *core.Ctx, r *core.Report) {
+		// components of one type scanned concurrently share nothing: every component gets properties of its own
+		tagScanPerComponentRules(c, r, "C20.R10")
 		copyLockRules(c, r, "C20.R9")
 		globalAppendRules(c, r, "C20.R8")
 	},
